@@ -45,7 +45,7 @@ claimed["C18"] = (
 claimed["C04"] = (
     "Bounded symbolic verification of the in-memory adapter: from EVERY membership matrix of 2x2 (quick) / 3x3 (thorough) sockets x rooms built through the real AddAll, and every target set T and "
     "exclusion set E (plus the sender's own-id room, as a socket's broadcast operator adds), the real Broadcast (apply/computeExceptSids, mapset library code executed from SSA) delivers to exactly "
-    "the sockets the 5-line reference selects, once each, never to the sender; one membership operation (join, leave, leave-all, SocketsJoin, SocketsLeave, DisconnectSockets with sockets calling back "
+    "the sockets the 5-line reference selects, once each, never to the sender; one membership operation from every 2x2 (quick) / 3x2 (thorough) state (join, leave, leave-all, SocketsJoin, SocketsLeave, DisconnectSockets with sockets calling back "
     "into the adapter, leaving the own-id room) from every such state yields exactly the specified new membership, a broadcast without target rooms afterwards still reaches every connected socket once, and preserves the representation invariant (rooms/sids mutually inverse, no empty room kept) - one inductive "
     "step covers histories of any length over that universe. C04_select_own lets T and E also contain the sockets' own-id rooms (To(socketID)/Except(socketID): a socket selected through its own room AND a joined room is still reached once), for Broadcast and FetchSockets, 2x2 (quick) / 3x2 (thorough). To/Except immutability is checked concretely.",
     "Also: a broadcast racing a join / leave / disconnect of a third socket under all interleavings (interval semantics: member throughout exactly once, non-member never, changing socket at most once). Outside the claim: multi-node adapters; universes larger than 3x3; end-to-end delivery. "
